@@ -96,6 +96,8 @@ def check(run, prop):
                        "ids (C16_conservation's id2job conjunct, C17 delivery/finality) are stated for histories without Drop: with Drop + kill + re-add of the same id, "
                        "waitjobs' `del id2job[j.jobid]` forgets the NEW job (real code and model agree; monitor 'addressable' skips exactly that case; "
                        "proposed fix /verif/fixes/C16-drop-deletes-readded.diff)",
+                       "Wait is not generated on a connection whose disconnect is pending (gevent corner: a client that starts waiting on an already-set event while "
+                       "its notifier is pending is released one loop turn later if an earlier waiter died first; history D 1;A 1 1 - 0;W 1 a1;K 5 a1;W 5 a1;L; model says same turn)",
                        "when several clients wait on the same DROPPED job, which of them gets the job and which the KeyError is not compared (event link order)"]
     src = core.snapshot(need_ext=False)
     run.check_proofs(prop, dirs=PROOF_DIRS[prop])
@@ -104,9 +106,9 @@ def check(run, prop):
     quick = run.tier == "quick"
     hs = corpus(prop)
     ncorpus = len(hs)
-    nrand = 40000 if quick else 400000
+    nrand = 40000 if quick else 200000
     if prop == "C18":
-        nrand = 20000 if quick else 60000
+        nrand = 20000 if quick else 40000
     enum_info = None
     if not quick:
         mode, depth = ("small", 5) if prop == "C16" else ("full", 4)
